@@ -32,6 +32,7 @@ type Choice struct {
 type Proc struct {
 	Sys    *System
 	Group  string    // process-set name, used to group locals in the dump
+	Node   int       // the node (server) this process belongs to, 0 = none (clients, crashers, model-only actors)
 	Self   tla.Value // the process identifier (pc[self])
 	Arch   distsys.MPCalArchetype
 	Locals []Local
